@@ -6,7 +6,7 @@
 # save rebuild time; remove it with `tools/mutant_run_iso.sh --clean` when done.
 set -u
 HERE="$(cd "$(dirname "${BASH_SOURCE[0]}")/.." && pwd)"
-ISO=/tmp/vmiso
+ISO=${VERIF_ISO_DIR:-/tmp/vmiso}
 if [ "${1:-}" = "--clean" ]; then rm -rf "$ISO"; exit 0; fi
 PATCH="$1"; TIER="$2"; shift 2
 mkdir -p "$ISO"
